@@ -20,6 +20,8 @@ pub enum Op {
     Write(u32),
     /// `write_all` of n bytes
     WriteAll(u32),
+    /// one `write_vectored` call offering slices of these lengths
+    WriteV(Vec<u32>),
     Flush,
     PollOnce,
     /// poll until Pending or a terminal event
@@ -35,6 +37,7 @@ impl Op {
         match self {
             Op::Write(n) => json!({ "write": n }),
             Op::WriteAll(n) => json!({ "write_all": n }),
+            Op::WriteV(ns) => json!({ "write_vectored": ns }),
             Op::Flush => json!("flush"),
             Op::PollOnce => json!("poll"),
             Op::PollAll => json!("poll_until_pending"),
@@ -49,6 +52,9 @@ impl Op {
         }
         if let Some(n) = v.get("write_all") {
             return Op::WriteAll(n.as_u64().unwrap_or(0) as u32);
+        }
+        if let Some(ns) = v.get("write_vectored").and_then(|x| x.as_array()) {
+            return Op::WriteV(ns.iter().map(|n| n.as_u64().unwrap_or(0) as u32).collect());
         }
         match v.as_str().unwrap_or("") {
             "flush" => Op::Flush,
@@ -308,6 +314,25 @@ pub fn run_stream(case: &StreamCase) -> Option<StreamObs> {
                             obs.accepted.extend_from_slice(&buf[..m]);
                         }
                         Res::Write { offered: *n, res: r.map_err(|e| format!("{:?}", e.kind())) }
+                    }
+                },
+                Op::WriteV(ns) => match writer.as_mut() {
+                    None => Res::Skipped,
+                    Some(w) => {
+                        let total: usize = ns.iter().map(|n| *n as usize).sum();
+                        let buf = payload(case.payload, obs.accepted.len() as u64, total);
+                        let mut slices = Vec::with_capacity(ns.len());
+                        let mut off = 0usize;
+                        for n in ns {
+                            slices.push(std::io::IoSlice::new(&buf[off..off + *n as usize]));
+                            off += *n as usize;
+                        }
+                        let r = w.write_vectored(&slices);
+                        if let Ok(m) = &r {
+                            let m = (*m).min(buf.len());
+                            obs.accepted.extend_from_slice(&buf[..m]);
+                        }
+                        Res::Write { offered: total as u32, res: r.map_err(|e| format!("{:?}", e.kind())) }
                     }
                 },
                 Op::WriteAll(n) => match writer.as_mut() {
